@@ -20,6 +20,14 @@ Items:
   `lrm <ref>`                    Branch.remove() — local deletion
   `m <ref> <src refs,> <ok 0/1>` Branch.merge(src) (one source) / robust_merge(dst, s1, s2) (two sources) in the clone;
                                  <ok> is what git's content merge answered WHEN IT WAS ASKED (ignored otherwise)
+  `m2 <ref> <src1> <src2> <answers bits|->`  git_utils.consecutive_merge(dst, src1, src2) (option `no_octopus`) = `Loc.merge2`;
+                                 <answers> = what git's content merge answered each time it was ASKED, in that order
+                                 (1 = merge commit created, 0 = conflict). Outcome `m2ok:<k>` / `m2conflict:<k>` / `noref`,
+                                 <k> = the number of answers the model consumed (the harness compares it with the number of
+                                 questions git was really asked). After a conflict the clone is the state the code leaves behind
+                                 (`Loc.merge2` itself answers `none` there: its callers drop that state): the branch keeps the
+                                 merges that went through - computed with the very steps `Loc.merge2` is made of (`Loc.seq2`
+                                 in one order, then in the other from where the branch is).
   `push <refs,> <rejected refs,|->`          git push origin a b c                 (Repository.push: not atomic)
   `pushall <prune 0/1> <rejected refs,|->`   git push --all --atomic [--prune]     (Repository.push_all)
   `del <ref> <rejected 0/1>`                 git push origin :ref                  (Branch.remove(do_push=True)); also local
@@ -67,6 +75,20 @@ def mergeIn (g : Graph) (loc : RefMap) (r : Ref) (srcs : List Commit) (ok : Bool
         | none => "noref"
       (word ++ (if asked then "/asked" else ""), l'.g, l'.refs)
 
+/-- `consecutive_merge(dst, a, b)` in the clone: the outcome word, the graph and the clone afterwards - also after a
+    conflict. Four failing answers are appended to the recorded ones: a question that git was never asked shows as
+    a conflict and as a larger count. -/
+def merge2In (g : Graph) (loc : RefMap) (r : Ref) (a b : Commit) (answers : List Bool) : String × Graph × RefMap :=
+  let l : Loc := ⟨g, loc, answers ++ [false, false, false, false]⟩
+  let used := fun (l' : Loc) => (answers.length + 4) - l'.orc.length
+  if !loc.has r then ("noref", g, loc) else
+  match l.merge2 r a b with
+  | some l' => (s!"m2ok:{used l'}", l'.g, l'.refs)
+  | none =>
+    let t := l.seq2 r a b
+    let u := if t.2 then t else t.1.seq2 r b a
+    (s!"m2conflict:{used u.1}", u.1.g, u.1.refs)
+
 def stepItem (s : St) (ws : List String) : Option (St × String) :=
   match ws with
   | ["rc", r, ps] => do
@@ -100,6 +122,13 @@ def stepItem (s : St) (ws : List String) : Option (St × String) :=
     | some cs =>
       let (w, g', loc') := mergeIn s.g s.loc r cs (ok == "1")
       pure ({ s with g := g', loc := loc' }, w)
+  | ["m2", r, s1, s2, bits] => do
+    let r ← parseRef r; let s1 ← parseRef s1; let s2 ← parseRef s2
+    match s.loc.get s1, s.loc.get s2 with
+    | some a, some b =>
+      let (w, g', loc') := merge2In s.g s.loc r a b (parseBits bits)
+      pure ({ s with g := g', loc := loc' }, w)
+    | _, _ => pure (s, "noref")
   | ["push", rs, rej] => do
     let rs ← parseRefs rs; let rej ← parseRefs rej
     let op := Op.push (tipsOf s.loc rs)
